@@ -85,6 +85,9 @@ impl PriceScenario {
                 let after = held.get(&x).copied().unwrap_or(Q::ZERO).add(signed_qty).unwrap();
                 held.insert(x.clone(), after);
                 let assertion = if rng.chance(1, 4) { format!(" = {} {}", q_text(after).unwrap(), x) } else { String::new() };
+                // a lot may carry its acquisition date: the price event still belongs to the day of the
+                // transaction that records it
+                let lot_date = if rng.chance(1, 3) { format!(" [{}]", (date - chrono::Duration::days(1 + rng.range(0, 40))).format("%Y/%m/%d")) } else { String::new() };
                 let (body, ev) = match kind {
                     0 => (
                         format!("    Assets:Trade    {} {} @ {} {}{}\n    Equity:Trade\n", qty_txt, x, q_text(rate).unwrap(), y, assertion),
@@ -95,11 +98,11 @@ impl PriceScenario {
                         Event { date, source: Source::Ledger, x: x.clone(), qty_x: qty, y: y.clone(), qty_y: total },
                     ),
                     2 => (
-                        format!("    Assets:Trade    {} {} {{{} {}}}{}\n    Equity:Trade\n", qty_txt, x, q_text(rate).unwrap(), y, assertion),
+                        format!("    Assets:Trade    {} {} {{{} {}}}{}{}\n    Equity:Trade\n", qty_txt, x, q_text(rate).unwrap(), y, lot_date, assertion),
                         Event { date, source: Source::Ledger, x: x.clone(), qty_x: Q::ONE, y: y.clone(), qty_y: rate },
                     ),
                     3 => (
-                        format!("    Assets:Trade    {} {} {{{{{} {}}}}}{}\n    Equity:Trade\n", qty_txt, x, q_text(total).unwrap(), y, assertion),
+                        format!("    Assets:Trade    {} {} {{{{{} {}}}}}{}{}\n    Equity:Trade\n", qty_txt, x, q_text(total).unwrap(), y, lot_date, assertion),
                         Event { date, source: Source::Ledger, x: x.clone(), qty_x: qty, y: y.clone(), qty_y: total },
                     ),
                     _ => (
